@@ -83,6 +83,12 @@ def gen_records(ctx):
     for b in range(256):
         recs.append(('const', bytes([b]) * 64))
         recs.append(('const', struct.pack('<Q', 5) + bytes([b]) * 32 + struct.pack('<QIIQ', 6, 0x040c000c, 1, 0)))
+    # correlated fields: a byte of one field equal to another field (top byte of the timestamp = cpu id, tid = debug id ...),
+    # all fields equal - shortcuts that compare fields with each other show only there
+    for v in (1, 2, 7, 0x7f, 0x80, 0xfe, 0xff):
+        recs.append(('correlated', struct.pack('<Q32sQIIQ', (v << 56) | 0x1234, struct.pack('<QQQQ', v, v, v, v), v, v << 2, v, v)))
+        recs.append(('correlated', struct.pack('<Q32sQIIQ', (v << 56) | 5, bytes(32), 9, 0x040c000c, v, 0)))
+        recs.append(('correlated', struct.pack('<Q32sQIIQ', v, struct.pack('<QQQQ', 1, 2, 3, 4), (v << 56) | 3, 0x040c000d, v << 24, v)))
     n_rand = 600 if ctx.quick() else 20000
     for _ in range(n_rand):
         recs.append(('random', bytes(rng.getrandbits(8) for _ in range(64))))
